@@ -112,17 +112,16 @@ static void family_case(const vf::Args& a, CS cs, uint64_t idx, uint64_t fidx) {
   Sys<N> rep = *it;
   if (g.coin()) for (auto& x : rep.b) x = -x;
   if (g.coin()) for (auto& x : rep.n) x = -x;
-  const int maxidx = std::max(*std::max_element(rep.b.begin(), rep.b.end(), [](int x, int y) { return std::abs(x) < std::abs(y); }),
-                              *std::max_element(rep.n.begin(), rep.n.end(), [](int x, int y) { return std::abs(x) < std::abs(y); }));
-  // hexagonal families that are only complete with the rotations of 60/180 degrees about c (sign change
-  // of the first three indices not equivalent to a permutation) are filed under their own stratum
-  bool needs6 = false;
+  int maxidx = 0; for (int x : rep.b) maxidx = std::max(maxidx, std::abs(x)); for (int x : rep.n) maxidx = std::max(maxidx, std::abs(x));
+  // hexagonal families whose planes (hkil), l != 0, are only all reached with the sign change of l
+  // (-(hki) is not a permutation of (hki)) are filed under their own stratum
+  bool needsl = false;
   if constexpr (N == 4) {
-    std::set<Sys<4>> sub;
-    for (const auto& o : hex_ops()) if (o[3] == 1) sub.insert(canon<4>({act(o, rep.b), act(o, rep.n)}));
-    needs6 = sub.size() < orb.size();
+    IV<3> p{rep.n[0], rep.n[1], rep.n[2]}, q{-rep.n[0], -rep.n[1], -rep.n[2]};
+    std::sort(p.begin(), p.end()); std::sort(q.begin(), q.end());
+    needsl = rep.n[3] != 0 && p != q;
   }
-  char S[64]; std::snprintf(S, sizeof S, "max-index-%d%s", std::abs(maxidx), needs6 ? "/needs-rotation-about-c" : "");
+  char S[64]; std::snprintf(S, sizeof S, "max-index-%d%s", maxidx, needsl ? "/plane-needs-l-sign-change" : "");
   char api[128];
   auto nm = [&](const char* f) { std::snprintf(api, sizeof api, "%s:%s", cs_name(cs), f); vf::set_case(api, S, idx); return api; };
   const uint64_t h = vf::hash_bytes(&rep, sizeof rep);
